@@ -41,9 +41,11 @@ func main() {
 		shard := fs.Int("shard", 0, "")
 		nshard := fs.Int("nshard", 1, "")
 		out := fs.String("out", "", "")
+		fams := fs.String("families", "", "")
+		fs.String("label", "", "")
 		id := os.Args[2]
 		fs.Parse(os.Args[3:])
-		os.Exit(lib.RunWorker(id, *tier, *shard, *nshard, *out))
+		os.Exit(lib.RunWorker(id, *tier, *shard, *nshard, *out, *fams))
 	default:
 		id := os.Args[1]
 		fs := flag.NewFlagSet("check", flag.ExitOnError)
